@@ -98,6 +98,23 @@ fn c09_foreign_terminator() {
     core::mem::forget(r);
 }
 
+//@ c09_foreign_terminator_short_reads {"desc":"a foreign header is rejected whatever way the bytes arrive: reader handing out one byte per read() call, header differing from the magic in its last byte","bounds":"'VibratoTokenizer 0.5' + 1 symbolic byte different from '\\n', valid body of the 359-byte image; read() returns 1 byte per call","symbolic":"the last header byte","functions":["Dictionary::read","Dictionary::read_common"],"fs":5000,"unwind":24,"unwindset":["memcmp:24"],"timeout":900,"stubs":["alloc::fmt::format"]}
+#[cfg(kani)]
+#[kani::proof]
+#[kani::stub(alloc::fmt::format, crate::c06::stub_format)]
+#[kani::stub(unty::type_equal, crate::csvstub::stub_type_equal)]
+fn c09_foreign_terminator_short_reads() {
+    let mut img = gen::IMG_MATRIX;
+    let b: u8 = kani::any();
+    kani::assume(b != b'\n');
+    img[20] = b;
+    let rdr = ShortReader { inner: CutReader::new(&img, img.len()), chunk: 1 };
+    let r = Dictionary::read(rdr);
+    assert!(r.is_err(), "an image with a foreign magic was loaded through a reader with short reads");
+    kani::cover!(img[20] == b'4');
+    core::mem::forget(r);
+}
+
 // (not registered: one symbolic cut point over the whole image forks at every read; 90 min of path exploration gave no verdict - replaced by the 16-byte window harnesses) c09_matrix_all_prefixes {"tier":"thorough","core":false,"desc":"every strict prefix of a matrix-connector dictionary image is rejected with an error, no panic","bounds":"359-byte image (2 words, 2x2 matrix, 3-entry char table, 2 unk entries); truncation point 0..358","symbolic":"the truncation point","functions":["Dictionary::read","Dictionary::read_common","bincode::decode_from_std_read","Trie::decode","DictionaryInner::decode"],"fs":5000,"unwind":24,"unwindset":["memcmp:24"],"timeout":5400,"mem_gb":28,"cbmc_args":["--paths","lifo"],"stubs":["alloc::fmt::format"]}
 #[cfg(kani)]
 #[kani::proof]
